@@ -159,7 +159,7 @@ def run(facts, rep, tier, file_filter=None, pid="C02"):
     if file_filter is None:
         rep.floor(P + ".S", "Send annotation sites", n_send, 40)
         rep.floor(P + ".N", "nop producers in mpc/**", n_nop, 40)
-        rep.floor(P + ".Z", "uses of get_zero_shares/get_node_shares outside their definition", n_src, 5)
+        rep.floor(P + ".Z", "uses of get_zero_shares/get_node_shares outside their definition", n_src, 4)
     else:
         rep.floor(P + ".S", "Send annotation sites in %s" % file_filter, n_send, 10)
         rep.floor(P + ".Z", "uses of get_zero_shares/get_node_shares in %s" % file_filter, n_src, 3)
@@ -217,7 +217,7 @@ def planner(facts, rep):
                                        "" if resh else ": a 3-out-of-3 product fed into the protocol is missing at the neighbour party"),
                    pl.loc())
     rep.tables["planner_vs_protocol"] = table
-    rep.floor("C02.K", "variants compiled with an interactive protocol", n_protocol, 12)
+    rep.floor("C02.K", "variants compiled with an interactive protocol", n_protocol, 10)
     # the mapping entry of a to-be-reshared node is produced by reshare
     fl = Flow(facts, cg, EXTRA)
     resh_calls = [bb for bb, t in cg.calls() if (callee_name(t) or "").endswith("resharing::reshare") and not cg.is_cleanup(bb)]
